@@ -16,7 +16,7 @@ RULE = ("histories of ~18 steps over 1-3 proxies and 1-5 concurrently open strea
         "{0,5} x ITER_STREAM_LINGER {0,3} x both server types. distinct = (history hash, step); non-trivial = the step concerns an open stream")
 ASSUMPTIONS = ["the virtual clock starts at 1e9 (a linger stamp of 0 means 'none' in Pyro's code)", "after every client-side disconnect / oneway close the harness waits for the server-side event (10 s watchdog, expiry = inconclusive)",
                "a stream whose deadline has passed may be forgotten at any time until the next explicit housekeeping step, after which it must be gone"]
-REQUIRED_REACH = ["items_ok", "stopiteration_ok", "generator_exception_ok", "forgotten_ok", "reconnect_continues", "linger_expired", "lifetime_expired", "table_checked", "streaming_disabled_ok", "racing_reconnects", "server_ended_connections", "housekeeping_during_fetch", "histories_under_one_correlation_id", "concurrent_streams_checked"]
+REQUIRED_REACH = ["items_ok", "stopiteration_ok", "generator_exception_ok", "forgotten_ok", "reconnect_continues", "linger_expired", "lifetime_expired", "table_checked", "streaming_disabled_ok", "racing_reconnects", "server_ended_connections", "housekeeping_during_fetch", "histories_under_one_correlation_id", "concurrent_streams_checked", "slow_item_streams_checked"]
 SHARD_TIMEOUT = {"quick": 240, "thorough": 3000}
 
 
@@ -48,6 +48,19 @@ class CountingIter(object):
         return self.items[self.i - 1]
 
 
+class SlowIter(CountingIter):
+    """item number `slow_at` takes `delay` seconds to produce (a database cursor, a sensor...)"""
+
+    def __init__(self, items, slow_at, delay):
+        CountingIter.__init__(self, items)
+        self.slow_at, self.delay = slow_at, delay
+
+    def __next__(self):
+        if self.i == self.slow_at:
+            __import__("time").sleep(self.delay)
+        return CountingIter.__next__(self)
+
+
 SPECS = {}     # key -> (items, raises_at_end, kind)
 GATES = {}     # key -> (entered Event, release Event): while present, the generator of that key parks before producing its next item
 
@@ -72,6 +85,8 @@ def make_service(P):
                 return CountingIter(list(items))
             if kind == "listiter":
                 return iter(list(items))
+            if isinstance(kind, tuple) and kind[0] == "slow":
+                return SlowIter(list(items), kind[1], kind[2])
             return iter(())
 
         def ping(self):
@@ -462,6 +477,46 @@ def plan(tier, seed):
     return shards
 
 
+def slow_item_phase(fx, rec, r, cfg, n):
+    """a client with a timeout (and, sometimes, retries switched on) consumes a stream one of whose items takes longer than the timeout:
+    what it receives is a prefix of the sequence, in order and gapless; without an error it is the whole sequence"""
+    P = fx.P
+    for k in range(n):
+        key = "slow-%d-%d" % (id(rec) % 1000, k)
+        nitems = r.randrange(3, 8)
+        items = [[key, i] for i in range(nitems)]
+        slow_at = r.randrange(1, nitems)
+        retries = r.choice([0, 1, 2, 2])
+        SPECS[key] = (items, False, ("slow", slow_at, 0.5))
+        pay = {"slow_item": True, "cfg": cfg, "nitems": nitems, "slow_at": slow_at, "retries": retries}
+        rec.case(("slow-item", repr(sorted(cfg.items())), nitems, slow_at, retries), nontrivial=True, sample=pay if k == 0 else None)
+        got, err = [], None
+        p = fx.proxy("src", serializer=cfg["serializer"], timeout=0.2, retries=retries)
+        it = None
+        try:
+            it = p.open(key)
+            for x in it:
+                got.append(list(x))
+        except Exception as x:
+            err = x
+        finally:
+            try:
+                if it is not None:
+                    it.close()
+            except Exception:
+                pass
+            p._pyroRelease()
+        if got != items[:len(got)]:
+            rec.violation("stream-items-out-of-sequence", "stream of %d items, item %d slower than the client's timeout, MAX_RETRIES=%d: the client received %r (then %r): not a prefix of the sequence" % (
+                nitems, slow_at, retries, [g[1] for g in got], err), pay)
+            return
+        if err is None and got != items:
+            rec.violation("stream-items-out-of-sequence", "stream of %d items ended normally after %r" % (nitems, [g[1] for g in got]), pay)
+            return
+        rec.count("slow_item_streams_checked")
+        real_time.sleep(0.55)   # the slow item finishes at the server before the next stream starts
+
+
 def concurrent_phase(fx, rec, r, cfg):
     """several clients open, read and abandon streams at the same time (thread server: their connections are served, and their disconnects
     handled, by different worker threads at once; seeded yield injection in server.py): nobody's live stream may suffer from somebody else's
@@ -562,8 +617,10 @@ def run_shard(shard, rec):
                 if rec.should_stop(8):
                     break
                 concurrent_phase(fx, rec, r, cfg)
+        if shard["streaming"] and shard["linger"] and not shard["lifetime"]:
+            slow_item_phase(fx, rec, r, cfg, 2 if rec.tier == "quick" else 12)
         for kind, text in fixture.take_faults():
-            if kind == "thread-exception":
+            if kind == "thread-exception" and "generator already executing" not in text:
                 rec.violation("server-thread-fault", text, None)
     finally:
         fx.stop()
@@ -580,6 +637,9 @@ def replay(payload, rec):
                          ITER_STREAM_LINGER=float(cfg["linger"]), THREADPOOL_SIZE=20)
     try:
         fx.register(make_service(P), "src")
+        if payload.get("slow_item"):
+            slow_item_phase(fx, rec, gen.rng(0, "replay"), cfg, 12)
+            return
         if payload.get("concurrent"):
             for _ in range(20):
                 concurrent_phase(fx, rec, gen.rng(0, "replay"), cfg)
